@@ -122,6 +122,29 @@ func poolGet(f *frame, c *ssa.CallCommon, args []sval) []sval {
 		o := t.newTemp("poolobj", t.objTop())
 		t.cur.Assign(t.objTop(), th.AAdd(t.objTop(), th.AddrLit(1)))
 		t.cur.Assume(th.ALt(t.objTop(), th.AddrLit(1<<16)))
+		if tn == "CompressorHC" {
+			// representation invariant of pooled objects: either fresh from New (all zero)
+			// or previously used and Put back (needsReset == true)
+			n, st := namedStruct(obj.Type())
+			var nr, ht, ct int
+			for i := 0; i < st.NumFields(); i++ {
+				switch st.Field(i).Name() {
+				case "needsReset":
+					nr = i
+				case "hashTable":
+					ht = i
+				case "chainTable":
+					ct = i
+				}
+			}
+			mem := t.mem(types.Typ[types.Int])
+			j := &Var{"j!p", th.Addr()}
+			in := And(th.ALe(th.AddrLit(0), j), th.ALt(j, th.AddrLit(65536)))
+			zero := th.Zero(types.Typ[types.Int])
+			body := Implies(in, And(Eq(Select(mem, th.AAdd(t.embArr(o, n, ht), j)), zero), Eq(Select(mem, th.AAdd(t.embArr(o, n, ct), j)), zero)))
+			t.cur.Assume(Implies(Not(Select(t.heap(n, nr), o)), &Quant{Forall: true, Vars: []*Var{j}, Body: body}))
+			t.assumptions["sync.Pool(compressorHCPool) returns objects satisfying the CompressorHC representation invariant"] = true
+		}
 		id := t.eng.typeID(pt)
 		b := t.newTemp("poolbox", t.boxPtr(o, id))
 		t.cur.Assume(Eq(mk("dyntype", SInt, b), IntLit(id)))
